@@ -12,6 +12,7 @@ def judge(path):
                 e_ = json.loads(line)
                 out["c"]["oct_keys_with_special_first_or_last_octet"] = out["c"].get("oct_keys_with_special_first_or_last_octet", 0) + e_[1]
                 out["c"]["imports_as_second_element_after_a_refused_key"] = out["c"].get("imports_as_second_element_after_a_refused_key", 0) + e_[2]
+                out["c"]["imports_into_a_set_whose_previous_key_was_dropped"] = out["c"].get("imports_into_a_set_whose_previous_key_was_dropped", 0) + e_[3]
                 continue
             if line.startswith('["OKPLZ"'):
                 out["c"]["okp_keys_with_leading_zero_octet"] = out["c"].get("okp_keys_with_leading_zero_octet", 0) + json.loads(line)[1]
